@@ -63,6 +63,9 @@ def judge(case, envs, rfun=None):
         licensed = E.closed_subterm_undefined(_expr_of(h)) or S.divisor_zero_everywhere(_expr_of(h), envs)
         if licensed:
             return ('licensed-raise', {'error': type(exc).__name__}, False, 0, {})
+        if S.undefined_everywhere(_expr_of(h), envs):
+            return ('licensed-raise', {'error': type(exc).__name__, 'why': 'input undefined on every valuation'},
+                    False, 0, {'input-undefined-on-every-valuation': 1})
         return ('simplify-raises', {'error': type(exc).__name__, 'message': str(exc)[:200]}, False, 0, {})
     r = o[1]
     fired = r is not h
